@@ -33,7 +33,11 @@ def run_history_case(rng, res: CaseResult, want, opts, feat=None, n_variants=3, 
         feat = dict(feat or {}, same_file_twice=False, dup_module_file=False)
         opts = dict(opts, parameter_mode=False)
         res.count('name_mode_histories')
-    if rng.random() < 0.25 and not name_mode:
+    fam = rng.random()
+    if fam < 0.08 and not name_mode:
+        spec, roots = S.namesake_spec(rng, feat)
+        res.count('namesake_family_histories')
+    elif fam < 0.3 and not name_mode:
         spec, roots = S.twin_spec(rng, feat)
         res.count('twin_family_histories')
     else:
